@@ -1,14 +1,15 @@
 #!/bin/bash
 # usage: tools/seed_round2.sh <Cxx> <c|d> <pkgdir> "<needs>" [demo file name]   -- confirm, keep and run a round-2 seed from /tmp/seed/out2-<Cxx>/<v>
 prop=$1; v=$2; pkg=$3; needs=$4; demo=${5:-demo_test.go}
-src=/tmp/seed/out2-$prop/$v
+pre=${SRC_PREFIX:-/tmp/seed/out2-}
+src=$pre$prop/$v
 [ -f $src/demo_test.go ] || cp $src/$demo $src/demo_test.go 2>/dev/null
 res=$(tools/seed_confirm.sh $src $pkg/demo_test.go 'Test' ./$pkg 2>&1 | grep -E "CONFIRMED|DOES NOT|NOT PASSING")
 echo "$prop-$v: $res"
 case "$res" in
-  CONFIRMED*) SEED_SRC_PREFIX=/tmp/seed/out2- tools/seed_keep.py $prop $v $pkg/demo_test.go ./$pkg "$needs" >/dev/null && python3 - <<PY
+  CONFIRMED*) SEED_SRC_PREFIX=$pre tools/seed_keep.py $prop $v $pkg/demo_test.go ./$pkg "$needs" >/dev/null && python3 - <<PY
 import json
-p='/verif/seeded/$prop-$v/meta.json'; m=json.load(open(p)); m['origin']+=' (round 2: asked for interleaving/fault-point dependent or two-site/boundary changes)'; m['demonstration']['run']='go test -vet=off -count=1 -run Test ./$pkg'; json.dump(m,open(p,'w'),indent=1)
+p='/verif/seeded/$prop-$v/meta.json'; m=json.load(open(p)); m['origin']+=' (round ${ROUND:-2}: asked for interleaving/fault-point dependent or two-site/boundary changes)'; m['demonstration']['run']='go test -vet=off -count=1 -run Test ./$pkg'; json.dump(m,open(p,'w'),indent=1)
 PY
   [ -n "${NORUN:-}" ] || tools/seed_run.sh $prop-$v ;;
 esac
